@@ -390,6 +390,31 @@ def extent_points(r):
     return sorted(p for p in pts if p <= cap)
 
 
+def hot_queries(r, limit=4):
+    """requests that start in the middle of a grain of an ABSENT grain table and run into the next table, whose first grain is
+    allocated (an absent table is skipped as a whole by get_runs: the skip must account for the offset inside the grain), and
+    requests that start mid-grain in an unallocated grain and run into an allocated one"""
+    if r["kind"] == "flat":
+        return []
+    gsz, gte, cap = r["gs"] * SEC, r["gte"], r["cap"] * SEC
+    gts = {int(t) for t in r["gts"]}
+    grains = {int(g): v for g, v in r["grains"].items()}
+    out = []
+    for t in sorted(gts):
+        if t >= 1 and (t - 1) not in gts and not isinstance(grains.get(t * gte, "u"), str):
+            p = t * gte * gsz
+            for d in {max(SEC, gsz // 2 // SEC * SEC), 8192 if gsz > 8192 else SEC, gsz + max(SEC, gsz // 4 // SEC * SEC)}:
+                if p - d >= 0 and p + 16384 <= cap:
+                    out.append([p - d, d + 16384])
+    for g in sorted(grains):
+        if not isinstance(grains[g], str) and (g - 1) not in grains and g >= 1 and gsz > SEC:
+            p = g * gsz
+            d = max(SEC, gsz // 2 // SEC * SEC)
+            if p + gsz <= cap:
+                out.append([p - d, d + min(gsz, 16384)])
+    return out[:limit]
+
+
 # ------------------------------------------------------------------------------------------ multi-extent disks
 
 def gen_disk(rng, tier, allow_known=False):
@@ -418,6 +443,12 @@ def gen_disk(rng, tier, allow_known=False):
                 rec["lead"] = e["start"] = rng.choice([1, 8, 63, 2048])
                 info["has_flat_start_sector"] = True
         exts.append(e)
+    if mode == "descriptor" and len(exts) >= 2 and rng.random() < 0.2:
+        # two extent files whose names differ only in letter case (a case-sensitive file system keeps them apart)
+        i, j = rng.sample(range(len(exts)), 2)
+        alt = exts[i]["name"].swapcase()
+        if alt != exts[i]["name"] and alt.casefold() == exts[i]["name"].casefold() and all(e["name"] != alt for e in exts):
+            exts[j]["name"] = alt
     if allow_known and mode == "descriptor" and rng.random() < 0.5:
         for _ in range(rng.choice([1, 1, 2])):
             typ = rng.choice(["ZERO", "ZERO", "VMFSRDM", "VMFSRAW"])
